@@ -880,6 +880,7 @@ type vLogin struct {
 	Method        string
 	RedirectURI   string
 	Start         *vResult
+	Query         url.Values // every parameter of the authorization request, with multiplicity
 }
 
 // start begins a login at /oauth2/start?rd=<rd>.
@@ -892,6 +893,7 @@ func (b *vMainBrowser) start(rd string) *vLogin {
 	l := &vLogin{Start: res, StartLocation: res.Location()}
 	if u, err := url.Parse(res.Location()); err == nil {
 		q := u.Query()
+		l.Query = q
 		l.State = q.Get("state")
 		l.Nonce = q.Get("nonce")
 		l.Challenge = q.Get("code_challenge")
